@@ -33,7 +33,7 @@ def fget(f, k):
 def mism(ctx, what, expected, got):
     if len(mismatches) < 80:
         mismatches.append({'ctx': ctx, 'what': what, 'expected': expected,
-                           'got': got, 'impl': impl})
+                           'got': got, 'impl': impl, 'case_idx': childlib.CASE[0]})
 
 
 class Result:
@@ -520,7 +520,7 @@ def run_case(case):
 
 
 CUR = {'ctx': None}
-for case in job['cases']:
+for childlib.CASE[0], case in enumerate(job['cases']):
     try:
         run_case(case)
     except Exception as e:      # raised by the code under test
